@@ -117,6 +117,7 @@ type Analysis struct {
 	results map[*ssa.Function][]*Node
 	frees   map[*ssa.Function][]*Node
 	gen     map[*ssa.Function]bool
+	skip    map[*ssa.Function]bool
 
 	work []workItem
 
